@@ -158,7 +158,8 @@ RULES = {
            "k*r*slots <= 3e6, otherwise first/last/chunk-boundary/random rows x first/last/random slots) is compared "
            "with the closed-form scaled-Cauchy matrix over the harness's own GF(2^16); stage rs16 compares bytes with "
            "reed-solomon-16 0.1.0 at 64-multiples; evaluations = symbols compared; distinct = (k, r, rate, size, api)",
-    "C03": "primitive cases = (fft|ifft, pos, size=2^n, truncated_size, skew_delta, blocks per shard, random input) "
+    "C03": "primitive cases = (fft|ifft, pos, size=2^n, truncated_size, skew_delta, blocks per shard, random or structured "
+           "input, a quarter at unaligned addresses; stages for 64-160 MiB working sets and for shards of 65535-131072 blocks) "
            "compared on the contract-defined outputs with Naive, plus byte-exact confinement to [pos, pos+size); "
            "mul and eval_poly cases; end-to-end = encode+decode per engine; evaluations = engine executions compared; "
            "non-trivial = size >= 2 with a non-empty defined range / at least one block / any end-to-end case",
@@ -168,19 +169,23 @@ RULES = {
     "C05": "case = history of 2-8 (thorough: up to 20) rounds on one encoder or decoder (explicit reset / implicit reset / abandoned round / "
            "failed calls / working space recycled through into_parts into another rate and engine), each round compared "
            "with a fresh object (and the ground truth); hand-overs sometimes keep the very configuration the working space is set up for; non-trivial = round preceded by a completed round of another "
-           "shape; distinct = hash of the whole history; natural and poisoned staleness counted separately",
+           "shape; distinct = hash of the whole history; natural and poisoned staleness counted separately; decoder "
+           "histories contain correlated rounds (neighbour configurations, the previous round's loss pattern, all recovery "
+           "shards and no original); one round in eight passes shards as values whose as_ref() changes between calls",
     "C06": "case = random walk of 10-40 (thorough: up to 200) public calls on one object (or one static call) with hostile scalars; every "
            "call is judged against the set of literally true errors computed by a shadow model; evaluations = calls "
-           "judged; distinct = hash of the call sequence",
+           "judged; the walks also hand the working space to a new codec of any rate; the Display text of a returned error must "
+           "mention every value the error carries; distinct = hash of the call sequence",
     "C07": "case = operation stream with injected failing calls applied to a primary and (successful operations only) "
            "to a twin; non-trivial = at least one failed call followed by a completed round; distinct = hash of the stream",
     "C10": "case = argument tuple for encode()/decode() (counts, shard lists with duplicates, out-of-range indexes, "
-           "mixed/invalid sizes, with and without recovery shards, half of them through filtering iterators with inexact size_hint, a third preceded by a failing call of the same shape) compared with the streaming API and the truth model; "
+           "mixed/invalid sizes, with and without recovery shards, half of them through filtering iterators with inexact size_hint, a third preceded by a failing call of the same shape, a quarter through iterators that state their own size_hint, a fifth as sub-slices of one flat buffer at odd addresses, one in fifty with shards of 64 KiB - 3 MiB) compared with the streaming API and the truth model; "
            "distinct = hash of the arguments",
     "C11": "case = minimal received set decoded in ascending order (reference), 4 permutations/interleavings and 3 "
            "supersets incl. all shards; non-trivial = at least one original missing in the minimal set",
     "C12": "case = 1-50 consecutive rounds on one object; after each encode/decode every accessor is probed with "
            "in-range, boundary, 2^32, 2^63, usize::MAX and wrap-around indexes and compared with the accessor model; "
+           "a third of the objects have a past; one round in six ends with the result dropped by unwinding; "
            "evaluations = rounds observed",
     "C08": "stage grid enumerates ALL (k, r) in 0..=65537 squared against five supports() predicates (exhaustive); "
            "hostile-scalars adds values up to usize::MAX; constructors compares new/reset/validate with "
@@ -209,14 +214,17 @@ RULES = {
            "distinct initialisation interleavings observed; in-process stages: migration (decoders / encoders "
            "hopping between 6 threads mid-round, every result checked) and churn (12 threads construct / reset / "
            "hand over / drop codecs with working spaces of 4 KiB - 8 MiB as fast as they can, checked round trips; "
-           "any panic, error or wrong result is a violation)",
+           "any panic, error or wrong result is a violation); children are released staggered, as a burst, or as a "
+           "burst aimed at the end of a table initialisation; roles include one-shot calls nested in the iterators of "
+           "one-shot calls",
     "C17": "case = history (new, rounds, resets, hand-over of the working space to another rate/engine) executed at "
            "shard sizes S and 8S under a counting allocator; rounds and steps that need no more working space than is "
            "held (positions calibrated from the crate's own fresh constructions, blocks per shard = ceil(S/64)) must "
            "not allocate shard-proportional "
            "memory; results of consecutive rounds of one configuration must live at the same address; evaluations = "
-           "steps measured; non-trivial = history with a non-growing step and more than one round",
-    "C13": "case = (config, rate, api, size, two data sets, scalar), all encodes of a case on fresh encoders or (half) as consecutive rounds of one encoder object; b is a small delta in a quarter of the cases: additivity, zero and homogeneity are checked; "
+           "steps measured; half of the resets and hand-overs find an unfinished round; stage huge-alloc uses objects that "
+           "hold 128-256 MiB; non-trivial = history with a non-growing step and more than one round",
+    "C13": "case = (config, rate, api, size, two data sets, scalar), all encodes of a case on fresh encoders or (half) as consecutive rounds of one encoder object; b is a small delta in a quarter of the cases; stage linearity-long-shards uses 4 and 8 MiB shards on every fast engine: additivity, zero and homogeneity are checked; "
            "evaluations = relations checked",
 }
 
